@@ -28,11 +28,17 @@ def main():
     src, sid, prop = sys.argv[1:4]
     checks = [prop]
     tier = "quick"
+    verif = VERIF
+    via_wt = False
     for i, a in enumerate(sys.argv):
         if a == "--checks":
             checks = sys.argv[i + 1].split(",")
         if a == "--tier":
             tier = sys.argv[i + 1]
+        if a == "--verif":          # run the checks of another framework copy (a builder's working copy)
+            verif = sys.argv[i + 1]
+        if a == "--via-worktree":   # run the checks with VERIF_REPO=<patched scratch worktree> instead of patching /repo
+            via_wt = True
     patch = os.path.join(src, "patch.diff")
     demo = os.path.join(src, "demo.py") if os.path.exists(os.path.join(src, "demo.py")) else os.path.join(src, "demo.sh")
     runner = [PY] if demo.endswith(".py") else ["bash"]
@@ -57,14 +63,22 @@ def main():
             tail = t.stdout.strip().split("\n")[-1]
             res["pytest_tail"] = tail
             res["ran"].append("pinned suite with patch: %s" % tail)
+            if via_wt and res.get("demo_clean_rc") == 0 and res.get("demo_patched_rc", 0) != 0 and "386 passed" in tail:
+                res["detected_by"] = {}
+                for c in checks:
+                    r = sh([PY, os.path.join(verif, "harness", "vcheck.py"), "--property", c, "--tier", tier], cwd=verif,
+                           timeout=6000, env=dict(os.environ, VERIF_REPO=wt))
+                    lines = [l for l in r.stdout.split("\n") if l.startswith("VIOLATION") or l.startswith("first failing")]
+                    res["detected_by"][c] = {"rc": r.returncode, "lines": [l[:400] for l in lines]}
+                    res["ran"].append("vcheck %s --tier %s with VERIF_REPO=<scratch worktree with the patch>: rc=%d" % (c, tier, r.returncode))
     finally:
         sh(["git", "-C", "/repo", "worktree", "remove", "--force", wt])
         shutil.rmtree(wt, ignore_errors=True)
     confirmed = res.get("demo_clean_rc") == 0 and res.get("patch_applies") and res.get("demo_patched_rc", 0) != 0 \
         and "386 passed" in res.get("pytest_tail", "")
     res["confirmed"] = bool(confirmed)
-    det = {}
-    if confirmed:
+    det = res.get("detected_by", {})
+    if confirmed and not via_wt:
         st = sh(["git", "-C", "/repo", "status", "--porcelain"]).stdout.strip()
         if st:
             print("refusing: /repo has uncommitted changes:\n" + st)
